@@ -82,8 +82,17 @@ func (vc *VC) loadPlace(st *State, p place) Val {
 	case pMap:
 		return vc.mapRead(st, p)
 	}
-	return vc.loadTyped(st, p, p.typ, "")
+	v := vc.loadTyped(st, p, p.typ, "")
+	if p.kind == pGlobal && nonNilGlobals[p.name] {
+		// package-level error values initialised with errors.New(...) and never reassigned
+		if sv, ok := v.(*Scalar); ok && sv.S == SRef {
+			vc.assume(st, not(eq(sv.T, "nil")))
+		}
+	}
+	return v
 }
+
+var nonNilGlobals = map[string]bool{"internal.VersionMismatch": true, "internal.ErrCacheClosed": true, "internal.errGoexit": true}
 
 func (vc *VC) loadTyped(st *State, p place, t types.Type, sub string) Val {
 	switch classify(t) {
